@@ -768,7 +768,7 @@ func Main() {
 		p := pkgs[d]
 		n, t := p.Info()
 		res.Infos[d] = [2]string{n, t}
-		if job.Mode == "exec" && job.Descs[d] != nil {
+		if job.Mode == "exec" && job.Descs[d] != nil && len(res.Violations) <= 12 {
 			func() {
 				defer func() {
 					if x := recover(); x != nil {
@@ -905,7 +905,7 @@ func runPkg(p *Pkg, d *Desc, job *Job, res *Result, kinds map[string]bool) {
 	emptyStruct := &Ty{K: kStruct}
 	errTurn := 0
 	for _, m := range d.Mems {
-		if m.Kind != 'm' {
+		if m.Kind != 'm' || len(res.Violations) > 12 {
 			continue
 		}
 		typeKinds(m.In, kinds, "in")
@@ -974,8 +974,8 @@ func runPkg(p *Pkg, d *Desc, job *Job, res *Result, kinds map[string]bool) {
 			nsets += 2 * len(errs) // enough turns for every error on every kind of stub
 		}
 		for set := 0; set < nsets; set++ {
-			if len(res.Violations) > 40 {
-				break
+			if len(res.Violations) > 12 {
+				break // the tree is broken; every further case would only add bounded waits
 			}
 			V := genVals(m.In)
 			scenario := []string{"call", "error", "more", "oneway", "upgrade", "more-error", "upgrade-error", "call"}[set%8]
